@@ -68,7 +68,7 @@ def run(tier, out):
                 "each run: 150 s capture phase (handshake, node info, keepalive, first rotation, payload), injection, 400 s of probes in every direction" % kinds,
         "self_test": st,
     }
-    cloudcommon.part(PID, tier, out, cov)
+    cloudcommon.part(PID, tier, out, cov, extra={"injection runs": tp + ".cloud"})
     return out.finish("model_checking", cov, assumptions=[
         "the attacker holds no trusted key; it sees and can resend every datagram, with any claimed source address",
         "Node.tla uses scaled timers (2 retries, 1 s linger); recorded runs use the code's constants (120 / 60 / 300)"])
